@@ -9,7 +9,7 @@ ZONE_FILES = ['africa', 'antarctica', 'asia', 'australasia', 'backward', 'etcete
               'northamerica', 'southamerica']
 
 
-def reconstruct(repo, out_dir):
+def reconstruct(repo, out_dir, decoy=False):
     base = os.path.join(repo, 'src', 'ace_time', 'zonedbx')
     rules = []
     with open(os.path.join(base, 'zone_policies.cpp')) as f:
@@ -98,8 +98,31 @@ def reconstruct(repo, out_dir):
         'Zone\tAmerica/Port_au_Prince\t-5:00\t-\tVP',
     ]
     links += ['Link\tVerif/Twin1\tVerif/Link-A', 'Link\tVerif/Twin2\tVerif/Link_A']
+    # several reasons on ONE item in EVERY scope (round 8): a zone with two UNTIL times and a STDOFF carrying seconds
+    # (truncated under every granularity the configurations use), a policy with two AT times and a SAVE carrying
+    # seconds, and a zone that uses it
+    rules += [
+        'Rule\tVerifE\t2001\tmax\t-\tMar\tlastSun\t2:00:30\t1:00\tD',
+        'Rule\tVerifE\t2001\tmax\t-\tOct\tlastSun\t2:00:45\t0\tS',
+        'Rule\tVerifE\t2003\tonly\t-\tJun\t1\t1:00:07\t0:30:20\tH',
+    ]
+    zones += [
+        'Zone\tVerif/XMulti\t1:00:13\tVerifA\tX%sX\t2005\tMar\t10\t2:00:30',
+        '\t\t\t1:00\tVerifA\tX%sX\t2008\tMar\t10\t3:00:45',
+        '\t\t\t1:00\tVerifA\tX%sT',
+        'Zone\tVerif/PolicyE\t2:00\tVerifE\tE%sT',
+    ]
     links += ['Link\tVerif/Twin1\tVerif/Alias1', 'Link\tVerif/Twin1\tVerif/Alias2', 'Link\tVerif/Multi\tVerif/AliasM',
               'Link\tVerif/Nowhere\tVerif/Dangling']
+    if decoy:
+        # a DIFFERENT source with the same names: every Zone name gets the eras of the next zone (cyclic), so that
+        # anything an earlier compilation remembered per name (sizes, ids, strings) is wrong for the real source
+        heads = [i for i, z in enumerate(zones) if z.startswith('Zone\t')]
+        names = [zones[i].split('\t')[1] for i in heads]
+        for k, i in enumerate(heads):
+            parts = zones[i].split('\t')
+            parts[1] = names[(k + 1) % len(names)]
+            zones[i] = '\t'.join(parts)
     os.makedirs(out_dir, exist_ok=True)
     with open(os.path.join(out_dir, ZONE_FILES[0]), 'w') as f:
         f.write('# reconstructed from src/ace_time/zonedbx comments\n')
